@@ -12,6 +12,7 @@ import (
 	"time"
 
 	"github.com/netsampler/goflow2/v2/decoders/netflow"
+	"github.com/netsampler/goflow2/v2/metrics"
 	"github.com/netsampler/goflow2/v2/producer"
 	protoproducer "github.com/netsampler/goflow2/v2/producer/proto"
 	"github.com/netsampler/goflow2/v2/utils"
@@ -204,9 +205,14 @@ func opPipe(st *state, args []string) []string {
 		return []string{resErr(err)}
 	}
 	capf := &captureFormat{}
+	// the `flow` (auto) pipe is wired as cmd/goflow2/main.go wires it: Prometheus-instrumented template
+	// systems; the `netflow` pipe uses the plain in-memory one
 	pcfg := &utils.PipeConfig{Format: capf, Producer: prod, NetFlowTemplater: func(key string) netflow.NetFlowTemplateSystem {
 		return netflow.CreateTemplateSystem()
 	}}
+	if args[1] == "flow" {
+		pcfg.NetFlowTemplater = metrics.NewDefaultPromTemplateSystem
+	}
 	var p utils.FlowPipe
 	switch args[1] {
 	case "netflow":
